@@ -475,19 +475,29 @@ package keeper
 // AdjustPool: only the creator of an editable pool that has not ended; the new end height is start + the minimum over
 // ALL rules of floor(available budget / reward per block) (running-minimum invariant of the last loop), and the pool
 // is re-queued at exactly that height.
+//@ define addRew(r, a) = with(with(r, "TotalReward", r.TotalReward + a), "RemainingReward", r.RemainingReward + a)
+// before the start height nothing has been released: every budget is still whole
+//@ define wholeBeforeStart(pl) = height < pl.StartHeight ==> (forall d:Str :: has(ruleF, pl.Id, d) ==> RULE(pl.Id, d).RemainingReward == RULE(pl.Id, d).TotalReward)
+// (within AdjustPool) the rule of denomination d as released up to now by updatePool
+//@ define MIDR(d) = ite(relNow, updRule(old(RULE(poolID, d)), pl), old(RULE(poolID, d)))
 //@ func Keeper.AdjustPool
 //@   property C05, C06, C13
 //@   returns err
 //@   requires rulesWF && rulesOK && height >= 0 && poolsWF
-//@   requires forall p:Str :: forall d:Str :: has(ruleF, p, d) ==> RULE(p, d).RewardPerBlock > 0
+//@   requires forall p:Str :: forall d:Str :: has(ruleF, p, d) ==> RULE(p, d).RewardPerBlock > 0 && RULE(p, d).TotalReward >= 0
+//@   requires forall d:Str :: amt(reward, d) >= 0 && amt(rewardPerBlock, d) >= 0
 //@   let pl = POOL(poolID)
 //@   uses ridxRange(POOL(poolID).Rules, "")
 //@   uses ridxHit(POOL(poolID).Rules, 0)
+//@   uses coinsListD(reward, "")
 //@   modifies active, ruleF, pools, bal
-//@   invariant #1 idx:  rangeindex >= 0 - 1 && rangeindex < len(rules)
+//@   invariant #1 idx:  rangeindex >= 0 - 1 && rangeindex < len(rules) && len(rules) == len(pool.Rules)
 //@   invariant #1 frame: active == old(active) && pools == set(old(pools), pool.Id, with(pool, "Rules", zero(pool.Rules)))
+//@   invariant #1 done: forall j:Int :: 0 <= j && j <= rangeindex ==> rules[j] == addRew(pool.Rules[j], amt(reward, pool.Rules[j].Reward))
+//@   invariant #1 todo: forall j:Int :: rangeindex < j && j < len(rules) ==> rules[j] == pool.Rules[j]
 //@   invariant #2 idx:  rangeindex >= 0 - 1 && rangeindex < len(rules)
 //@   invariant #2 frame: active == old(active) && pools == set(old(pools), pool.Id, with(pool, "Rules", zero(pool.Rules)))
+//@   invariant #2 rem:  forall d:Str :: amt(remainingReward, d) == ite(inRules(rules, d) && ridx(rules, d) <= rangeindex, rules[ridx(rules, d)].RewardPerBlock * remainingHeight, 0)
 //@   invariant #3 idx:  rangeindex >= 0 - 1 && rangeindex < len(rules)
 //@   invariant #3 frame: active == old(active) && pools == set(old(pools), pool.Id, with(pool, "Rules", zero(pool.Rules)))
 //@   invariant #3 min:  forall j:Int :: 0 <= j && j <= rangeindex ==> availableHeight <= tdiv(amt(availableReward, rules[j].Reward), rules[j].RewardPerBlock)
@@ -496,12 +506,74 @@ package keeper
 // queue hygiene across the re-scheduling: the pool is queued at its (possibly new) end height and nowhere else
 //@   ensures requeued:   err == nil && old(activeInv) && old(has(active, pl.EndHeight, poolID)) ==> activeInv && has(active, POOL(poolID).EndHeight, poolID)
 //@   ensures others:     forall p:Str :: p != poolID ==> has(pools, p) == old(has(pools, p)) && POOL(p) == old(POOL(p))
+// the rule table afterwards. First by list position (rules is the list AdjustPool ends with) ...
+//@   let relNow = releasing(pl)
+//@   ensures list_final: err == nil ==> (forall j:Int :: 0 <= j && j < len(rules) ==> old(has(ruleF, poolID, rules[j].Reward))
+//@                         && rules[j] == withRpb(addRew(MIDR(rules[j].Reward), amt(reward, rules[j].Reward)), rewardPerBlock))
+//@   by list_final: updatePool.rules_list, updatePool.pool_record, inv:done, inv:todo, inv:idx, UpdateWith.updated, UpdateWith.same_len, req
+//@   ensures list_complete: err == nil ==> (forall d:Str {old(has(ruleF, poolID, d))} :: old(has(ruleF, poolID, d)) ==> 0 <= uf("rule_pos", old(ruleF), poolID, d) && uf("rule_pos", old(ruleF), poolID, d) < len(rules)
+//@                         && rules[uf("rule_pos", old(ruleF), poolID, d)].Reward == d)
+//@   by list_complete: updatePool.rules_complete, updatePool.pool_record, inv:done, inv:todo, inv:idx, UpdateWith.updated, UpdateWith.same_len, req
+//@   ensures list_stored: err == nil ==> (forall j:Int :: 0 <= j && j < len(rules) ==> has(ruleF, poolID, rules[j].Reward) && RULE(poolID, rules[j].Reward) == rules[j])
+//@                         && (forall d:Str :: !old(has(ruleF, poolID, d)) ==> !has(ruleF, poolID, d))
+//@   by list_stored: SetRewardRules.stored, SetRewardRules.frame, updatePool.rule_frame, updatePool.rules_list, updatePool.pool_record, inv:done, inv:todo, inv:idx, UpdateWith.updated, UpdateWith.same_len, uses:ridxRange, uses:ridxHit, req
+// ... then per denomination: the rule as released up to now, topped up by the added reward, with the per-block reward
+// replaced where a new positive one is given (C06: budgets grow by exactly what was paid in)
+//@   ensures rules_final: err == nil ==> (forall d:Str :: has(ruleF, poolID, d) == old(has(ruleF, poolID, d))
+//@                         && (has(ruleF, poolID, d) ==> RULE(poolID, d) == withRpb(addRew(MIDR(d), amt(reward, d)), rewardPerBlock)))
+//@   by rules_final: ens:list_final, ens:list_complete, ens:list_stored
+// what is available to the new schedule, by list position: for a started pool what the old schedule still needed plus
+// the top-up, for a pool not yet started the whole (topped-up) budget ...
+//@   ensures avail_list: err == nil ==> (forall j:Int :: 0 <= j && j < len(rules) ==> amt(availableReward, rules[j].Reward) ==
+//@                           ite(pl.StartHeight <= height, MIDR(rules[j].Reward).RewardPerBlock * (pl.EndHeight - height) + amt(reward, rules[j].Reward),
+//@                                                         MIDR(rules[j].Reward).TotalReward + amt(reward, rules[j].Reward)))
+//@   by avail_list: inv:rem, inv:done, inv:todo, inv:idx, TotalReward.by_denom, updatePool.rules_list, updatePool.rules_distinct, updatePool.pool_record, UpdateWith.updated, UpdateWith.same_len, uses:ridxRange, uses:ridxHit, req
+// ... and the new end height is the start of the schedule plus the least number of blocks any budget pays for
+//@   ensures end_height: err == nil ==> POOL(poolID).EndHeight == expiredHeight && (expiredHeight == ite(pl.StartHeight <= height, height, pl.StartHeight) + availableHeight
+//@                         || ite(pl.StartHeight <= height, height, pl.StartHeight) + availableHeight > 9223372036854775807)
+//@   by end_height: updatePool.pool_record, inv:frame, req
+//@   ensures end_min: err == nil ==> (forall j:Int :: 0 <= j && j < len(rules) ==> availableHeight <= tdiv(amt(availableReward, rules[j].Reward), rules[j].RewardPerBlock))
+//@   by end_min: inv:min, inv:idx
+// so the new end height spends, per denomination, at most the available budget
+// in product form: the blocks of the new schedule cost no budget more than is available to it
+//@   ensures end_prod: err == nil ==> (forall j:Int :: 0 <= j && j < len(rules) ==> rules[j].RewardPerBlock * availableHeight <= amt(availableReward, rules[j].Reward))
+//@   by end_prod: ens:end_min, ens:list_final, uses:coinsListD, req
+// (unless the 64-bit height arithmetic wrapped: budgets worth more than 2^63 blocks)
+//@   let sched0 = ite(pl.StartHeight <= height, height, pl.StartHeight)
+//@   ensures end_exact: err == nil && POOL(poolID).EndHeight >= sched0 ==> POOL(poolID).EndHeight - max(height, pl.StartHeight) == availableHeight
+//@   by end_exact: ens:end_height, ens:end_min, req
+//@   ensures end_budget: err == nil && POOL(poolID).EndHeight >= sched0 ==> (forall d:Str :: has(ruleF, poolID, d) ==>
+//@                         RULE(poolID, d).RewardPerBlock * (POOL(poolID).EndHeight - max(height, pl.StartHeight))
+//@                           <= ite(pl.StartHeight <= height, MIDR(d).RewardPerBlock * (pl.EndHeight - height) + amt(reward, d), MIDR(d).TotalReward + amt(reward, d)))
+//@   by end_budget: ens:avail_list, ens:end_prod, ens:end_exact, ens:list_final, ens:list_complete, ens:list_stored, ens:rules_final, req
+// what updatePool left of every budget still covers the old schedule
+//@   ensures mid_funded: err == nil && old(endInv(with(POOL(poolID), "Id", poolID))) && pl.LastHeightDistrRewards <= height ==> (forall d:Str :: old(has(ruleF, poolID, d)) ==>
+//@                         MIDR(d).RemainingReward >= MIDR(d).RewardPerBlock * (pl.EndHeight - max(height, pl.StartHeight)))
+//@   by mid_funded: updatePool.keeps_end, updatePool.by_denom, updatePool.pool_record, ens:authorized, req
+//@   ensures record_kept: err == nil ==> POOL(poolID).StartHeight == pl.StartHeight && POOL(poolID).LastHeightDistrRewards == height && POOL(poolID).Id == poolID
+//@                         && POOL(poolID).TotalLptLocked == pl.TotalLptLocked
+// the new schedule is funded: what is left of every budget (after the top-up) covers every block up to the new end
+// height at the (possibly new) per-block rewards - what keeps every later release, and so every withdrawal, from failing
+// (the pool record is filed under its own id - poolsWF - so the id is written as poolID throughout)
+//@   let plq = with(POOL(poolID), "Id", poolID)
+//@   ensures funded:     err == nil && old(endInv(plq)) && old(wholeBeforeStart(plq)) && pl.LastHeightDistrRewards <= height && POOL(poolID).EndHeight >= sched0 ==> endInv(with(POOL(poolID), "Id", poolID))
+//@   by funded: ens:rules_final, ens:end_budget, ens:record_kept, ens:mid_funded, ens:authorized, req
 //@ end
 
+// store a rule list (distinct reward denominations): afterwards every listed rule is the stored rule of its
+// denomination and nothing else changed
 //@ func Keeper.SetRewardRules
-//@   inline
-//@   invariant #1 idx: rangeindex >= 0 - 1 && rangeindex < len(rules)
-//@   invariant #1 frame: active == old(active) && pools == set(old(pools), pool.Id, with(pool, "Rules", zero(pool.Rules)))
+//@   property C05, C06, C13
+//@   uses ridxRange(rules, "")
+//@   uses ridxHit(rules, 0)
+//@   requires distinctRewards(rules)
+//@   modifies ruleF
+//@   invariant #1 idx:  rangeindex >= 0 - 1 && rangeindex < len(rules)
+//@   invariant #1 done: forall j:Int :: 0 <= j && j <= rangeindex ==> has(ruleF, poolId, rules[j].Reward) && RULE(poolId, rules[j].Reward) == rules[j]
+//@   invariant #1 rest: forall p:Str :: forall d:Str :: !(p == poolId && inRules(rules, d) && ridx(rules, d) <= rangeindex) ==> has(ruleF, p, d) == old(has(ruleF, p, d)) && RULE(p, d) == old(RULE(p, d))
+//@   ensures stored: forall j:Int :: 0 <= j && j < len(rules) ==> has(ruleF, poolId, rules[j].Reward) && RULE(poolId, rules[j].Reward) == rules[j]
+//@   ensures frame:  forall p:Str :: forall d:Str :: !(p == poolId && inRules(rules, d)) ==> has(ruleF, p, d) == old(has(ruleF, p, d)) && RULE(p, d) == old(RULE(p, d))
+//@   nopanic C13
 //@ end
 
 // ---------------------------------------------------------------------------------------------
